@@ -63,7 +63,7 @@ streams
 
 Not covered, because the quantifier of C16 is over TEXTS and HISTORIES: passes called directly on circuit objects.
 
-OPEN FINDING on the unchanged library (kept out of `run`; `--open-findings` / `probe_open_findings()` shows it; set
+FINDING of this stream on the pinned library, REPAIRED in /repo by 2ecedb7 (now inside `run`; C16_COMBO_BININT=0 removes it; `--open-findings` / `probe_open_findings()` shows it; set
 C16_COMBO_BININT=1 to put it into the `runs` stream):
   huge_binary_literal : a binary literal of 14285 or more digits where the grammar does not allow one, e.g.
            "register r[2]\\nP r[0] '" + "1" * 14285 + "'\\n": `JaqalParser.error` formats the token's value (an int of more than
@@ -85,7 +85,7 @@ from collections import Counter
 DEFAULT_DRIVER = "/verif/lean/.lake/build/bin/jaqal-model"
 MAX_PRONE_HANGS = 2       # per interpreter: then the rest of the `runs` stream is skipped
 MAX_HANGS = 5             # per interpreter: then everything is skipped
-INCLUDE_BININT = os.environ.get("C16_COMBO_BININT", "") == "1"
+INCLUDE_BININT = os.environ.get("C16_COMBO_BININT", "1") == "1"  # repaired in /repo (2ecedb7): part of the judged stream
 
 _loaded = False
 
@@ -393,7 +393,7 @@ UNTERMINATED = ["*", "**note** ", "* ", "*\n", " *\n", "/", "/* ", "*x", "**", "
 
 
 def run_lengths(thorough):
-    return [30, 40, 64, 200, 1000, 5000] + ([20000, 100000] if thorough else [])
+    return [30, 40, 64, 200, 1000, 5000, 8000] + ([20000, 100000] if thorough else [])  # 2 * 8000 binary digits > 4300 decimal digits
 
 
 def runs_calls(seed, n, thorough):
